@@ -487,6 +487,22 @@ func (root *Root) ParseExecutableReader(r io.Reader) (*Executable, error) {
 func (root *Root) SDL(full bool, desc ...bool) string {
 	var b strings.Builder
 
+	// A schema that was not defined is not in the type list, it is formed
+	// from the types with the default root operation names and needs no
+	// text. Once a schema extension put a directive on it or gave it a root
+	// operation type of another name only a schema definition can say so.
+	if s := root.implicitSchema; s != nil && s == root.schema {
+		plain := len(s.Dirs) == 0
+		for _, f := range s.fields.list {
+			if f.Type == nil || f.Type.Name() != strings.ToUpper(f.N[:1])+f.N[1:] {
+				plain = false
+			}
+		}
+		if !plain {
+			b.Write([]byte{'\n'})
+			b.WriteString(s.SDL(desc...))
+		}
+	}
 	for _, t := range root.types.list {
 		if full || !t.Core() {
 			b.Write([]byte{'\n'})
